@@ -37,10 +37,20 @@ var vRandN int
 //verif:stub (*github.com/panjf2000/ants/v2.PoolWithFunc).Invoke
 func vPoolInvoke(_ *ants.PoolWithFunc, task interface{}) error {
 	if f, ok := task.(func()); ok {
-		go f()
+		go func() {
+			// like an ants worker: a panicking task is logged and dropped, the process lives on
+			defer func() {
+				if r := recover(); r != nil {
+					vPoolPanics++
+				}
+			}()
+			f()
+		}()
 	}
 	return nil
 }
+
+var vPoolPanics int
 
 type vStore struct {
 	store.Store
